@@ -6,7 +6,7 @@ cd /tmp/ck; export CARGO_NET_OFFLINE=true
 cargo check --offline --workspace 2>&1 | tail -1
 rc=0
 for d in /verif/seeded /verif/seeded2 /verif/seeded3 /verif/refactors; do
-  for id in $(ls $d | grep "^C[0-9][0-9]$"); do
+  for id in $(ls $d | grep "^C[0-9][0-9]"); do
     git checkout -q -- .
     git apply $d/$id/patch.diff 2>/dev/null || { echo "$d/$id: does not apply"; continue; }
     r=$(cargo check --offline --workspace 2>&1 | grep -E "^error" | head -1)
